@@ -5,12 +5,16 @@ use serde_json::{json, Value};
 /// scale: more bytes than an internal buffer (8 KiB, 64 KiB), lines longer than one, with the
 /// marker early, late, or exactly across a buffer boundary
 pub fn big_data(rng: &mut Rng) -> Vec<u8> {
+    let bound = *rng.pick(&[4096usize, 8192, 8192, 8192, 16384, 32768, 65536, 65536, 65536, 131072]);
+    let variant = rng.below(5);
+    big_data_with(rng, bound, variant)
+}
+pub fn big_data_with(rng: &mut Rng, bound: usize, variant: usize) -> Vec<u8> {
     let mut out: Vec<u8> = vec![];
     let fill = |out: &mut Vec<u8>, n: usize, rng: &mut Rng| { for _ in 0..n { out.push(*rng.pick(b"abcdefgh 0123456789+-")); } };
     // the boundary of an internal buffer the input is built around (no larger than needed: TLC
     // validates every byte)
-    let bound = *rng.pick(&[4096usize, 8192, 8192, 8192, 16384, 32768, 65536, 65536, 65536, 131072]);
-    match rng.below(5) {
+    match variant {
         // one very long line with the marker lying across / next to the boundary
         0 => {
             let at = (bound as i64 + *rng.pick(&[-9i64, -8, -7, -4, -1, 0, 1, -4000])) as usize;
@@ -152,6 +156,16 @@ pub fn schedule(rng: &mut Rng, d: &[u8]) -> Value {
 }
 
 pub fn case(rng: &mut Rng) -> Value {
+    case_i(rng, u64::MAX)
+}
+/// the first four cases of a run are the two boundary shapes around 64 KiB and 8 KiB, as patches
+pub fn case_i(rng: &mut Rng, i: u64) -> Value {
+    if i < 4 {
+        let d = big_data_with(rng, if i < 2 { 65536 } else { 8192 }, (i % 2) as usize);
+        // (a plain schedule: a byte-at-a-time schedule of 65 000 reads would not fit the size budget)
+        let sched = if rng.chance(1, 2) { json!([["read", d.len()], ["eof", 0]]) } else { { let k = d.len().min(8192); json!([["read", k], ["read", d.len() - k], ["eof", 0]]) } };
+        return json!({"mode": "patch", "data": bytes_json(&d), "sched": sched});
+    }
     let d = if rng.chance(1, 120) { big_data(rng) } else { data(rng, 1500) };
     let mode = if rng.chance(1, 2) { "patch" } else { "plain" };
     json!({"mode": mode, "data": bytes_json(&d), "sched": schedule(rng, &d)})
